@@ -163,7 +163,11 @@ func (c *c06World) build(s *gen.Stream, id string) (*gen.World, *gen.Cert) {
 }
 
 var farBefore = gen.T0.AddDate(-30, 0, 0)
-var farAfter = gen.T0.AddDate(60, 0, 0)
+var farAfter = time.Date(2600, 1, 1, 0, 0, 0, 0, time.UTC)
+
+// epochs around which verification times are drawn: the usual one, the instant where a nanosecond
+// count stops fitting 63 bits, and beyond it
+var c06Epochs = []time.Time{gen.T0, gen.T0, time.Date(2262, 4, 11, 23, 47, 16, 0, time.UTC), time.Date(2300, 6, 1, 0, 0, 0, 0, time.UTC)}
 
 func c06Fresh(times [5]time.Time, shared bool) *c06World {
 	c := &c06World{win: map[string]gen.Window{}, times: times, shared: shared}
@@ -201,6 +205,12 @@ func c06Check(t gen.TB, c *c06World, s *gen.Stream, id, desc string, levels []ge
 				later := *c
 				later.times = c.times
 				later.times[ti] = c.times[ti].Add(time.Duration(1+s.Intn(5_000_000)) * time.Second)
+				if s.Intn(3) == 0 {
+					later.times[ti] = time.Date(2263+s.Intn(300), 1, 1, 0, 0, 0, 0, time.UTC) // "every later time" includes the far future
+					if !later.times[ti].After(c.times[ti]) {
+						continue
+					}
+				}
 				if later.model(l) == "" {
 					continue // advancing this field un-does a not-yet-valid condition: not covered by the monotonicity clause
 				}
@@ -221,12 +231,17 @@ func c06Check(t gen.TB, c *c06World, s *gen.Stream, id, desc string, levels []ge
 func distinctTimes(s *gen.Stream) [5]time.Time {
 	var ts [5]time.Time
 	used := map[int64]bool{}
+	epoch := c06Epochs[s.Intn(len(c06Epochs))]
+	span := 20 * 365 * 86400
+	if epoch.Year() == 2262 {
+		span = 7200 // within an hour of the boundary, on both sides
+	}
 	for i := range ts {
 		for {
-			off := int64(s.Intn(20*365*86400)) - 10*365*86400
+			off := int64(s.Intn(span)) - int64(span/2)
 			if !used[off] {
 				used[off] = true
-				ts[i] = gen.T0.Add(time.Duration(off) * time.Second)
+				ts[i] = epoch.Add(time.Duration(off) * time.Second)
 				break
 			}
 		}
